@@ -240,6 +240,23 @@ Theorem paths_prefix_free : forall n1 k1 n2 k2 p1 p2 q, wf_kind k1 -> wf_kind k2
 Proof. exact paths_prefix_free_lemma. Qed.
 Print Assumptions paths_prefix_free.
 
+(** the wrappers of [CredentialContext] derive along the paths of the direct getters for the same
+    (identity provider, identity, credential, tag) ... *)
+Theorem context_paths_agree : forall (c : credential_context) (tag : N),
+  ctx_attribute_randomness_path c tag
+  = path_of (ctx_net c) (AttributeCommitmentRandomness (ctx_ip c) (ctx_id c) (ctx_cred c) tag)
+  /\ ctx_cred_id_prf_path c = path_of (ctx_net c) (PrfKey (ctx_ip c) (ctx_id c)).
+Proof. exact context_paths_agree_lemma. Qed.
+Print Assumptions context_paths_agree.
+
+(** ... and the order of identity provider index and identity index matters whenever they differ *)
+Theorem context_paths_order_sensitive : forall n ip id cred tag p,
+  u32 ip -> u32 id -> u32 cred -> (tag < 256)%N ->
+  path_of n (AttributeCommitmentRandomness ip id cred tag) = Some p ->
+  path_of n (AttributeCommitmentRandomness id ip cred tag) = Some p -> ip = id.
+Proof. exact context_paths_order_sensitive_lemma. Qed.
+Print Assumptions context_paths_order_sensitive.
+
 Example paths_nonvacuous :
   wf_kind (AccountSigningKey 0 55 7) /\
   path_of Mainnet (AccountSigningKey 0 55 7)
